@@ -189,6 +189,11 @@ pub fn run(args: &Args) -> ! {
             }
         }
     }
+    // text anchors: a search that resumes at a line start must still see
+    // what precedes it
+    for sp in ["\\Aa\\n", "\\Aa", "(?-m)^a\\n", "\\Aa\\n|b", "\\A(?:a|b)\\n", "\\A\\n", "(?-m:^)b?\\n", "\\Aa\\n|\\Ab"] {
+        pats.push(sp.replace("\\\\", "\\"));
+    }
     let modes = [
         Mode { crlf: false, dotall: false, wrap: 0 },
         Mode { crlf: false, dotall: true, wrap: 0 },
